@@ -7,7 +7,6 @@ import (
 	"fmt"
 	"go/token"
 	"go/types"
-	"sort"
 	"strings"
 
 	"golang.org/x/tools/go/ssa"
@@ -579,59 +578,5 @@ func c16SharedState(c *Ctx, r *Report) {
 		}
 	}
 	roots = append(roots, c.fnMust("packet", "LooksLikeModbusTCP"), c.fnMust("packet", "ParseTCPRequest"))
-	cg := c.callGraph()
-	reach := map[*ssa.Function]bool{}
-	var walk func(f *ssa.Function)
-	walk = func(f *ssa.Function) {
-		if f == nil || reach[f] || !c.inModule(f) {
-			return
-		}
-		reach[f] = true
-		for _, an := range f.AnonFuncs {
-			walk(an)
-		}
-		if n := cg.Nodes[f]; n != nil {
-			for _, e := range n.Out {
-				walk(e.Callee.Func)
-			}
-		}
-	}
-	for _, f := range roots {
-		walk(f)
-	}
-	var fns []*ssa.Function
-	for f := range reach {
-		fns = append(fns, f)
-	}
-	sort.Slice(fns, func(i, j int) bool { return fns[i].String() < fns[j].String() })
-	nstores, bad := 0, 0
-	for _, fn := range fns {
-		if fn.Synthetic != "" && fn.Name() == "init" {
-			continue
-		}
-		r.funcs[fnID(fn)] = true
-		for _, b := range fn.Blocks {
-			for _, in := range b.Instrs {
-				var addr ssa.Value
-				switch x := in.(type) {
-				case *ssa.Store:
-					addr = x.Addr
-				case *ssa.MapUpdate:
-					addr = x.Map
-				}
-				if addr == nil {
-					continue
-				}
-				nstores++
-				if g := globalBase(addr, 0, map[ssa.Value]bool{}); g != nil {
-					bad++
-					r.fail("R16.6", fnID(fn), "the per-connection path writes memory reached from package-level variable "+g.Name()+": concurrent connections (and later requests) observe each other's data", c.pos(in.Pos()), addr.String(), "global-write:"+g.Name())
-				}
-			}
-		}
-	}
-	r.instance("R16.6", len(fns))
-	if bad == 0 {
-		r.ok("R16.6", "server.(*connection).handle", fmt.Sprintf("none of the %d stores in the %d module functions reachable from the per-connection path writes package-level state or memory loaded from it", nstores, len(fns)), "-", true)
-	}
+	sharedStateRule(c, r, "R16.6", "server.(*connection).handle", "the per-connection path", roots)
 }
